@@ -401,6 +401,7 @@ func (H) Execute(scAny any, cfg simrt.Config, st *core.Stats) (*simrt.Outcome, *
 	default:
 		r.l = &mtx{}
 	}
+	cfg.StopWhenClientsDone = true // goroutines of the implementation itself (none on the pinned tree) do not keep a run alive
 	s := simrt.New(cfg)
 	s.Go(func() {
 		phase := func(base int, tasks [][]Sec) {
